@@ -10,6 +10,7 @@ CONSTANTS
   TolPair = 100000
   PairPerKf = 10000
   KfMax = 100000
+  ShiftC = 32
 CONSTRAINT Diag
 POSTCONDITION TraceAccepted
 CHECK_DEADLOCK FALSE
